@@ -96,7 +96,8 @@ POOL = [
     ("object()", object), ("deep50", lambda: _deep(50)), ("[[1]]", lambda: [[1]]), ("[{}]", lambda: [{}]), ("[[1],[1]]", lambda: [[1], [1]]),
     ("NTItems", lambda: NTItems(5, 3, 1, None)), ("ObjItems", ObjItems), ("[NTItems]", lambda: [NTItems(5, 3, 1, None)]),
     ("'a{9..9}'", lambda: "a{99999999999999999999}"), ("(0,(1,),10**30)", lambda: (0, (1,), 10**30)),
-    ("'sNaN'", lambda: "sNaN"),
+    ("'sNaN'", lambda: "sNaN"), ("[('a',1)]", lambda: [("a", 1)]), ("[['a',1],['b',2]]", lambda: [["a", 1], ["b", 2]]), ("['ab','cd']", lambda: ["ab", "cd"]),
+    ("iter-of-pairs", lambda: iter([("a", 1)])), ("{('a',1)}", lambda: {("a", 1)}),
     ("Ellipsis", lambda: ...), ("NotImplemented", lambda: NotImplemented),
 ]
 POOL_BY_LABEL = dict(POOL)
